@@ -4,8 +4,10 @@ package sim
 
 import (
 	"bytes"
+	"errors"
 	"fmt"
 	"os"
+	"strings"
 	"syscall"
 	"time"
 
@@ -84,7 +86,27 @@ func c19Run(c *vcore.Ctx) *vcore.Violation {
 	var held []int // received descriptors not yet closed by the harness
 	base := countFds()
 	expectFds := func(what string) *vcore.Violation {
-		if n := countFds(); n != base+len(held) {
+		n := countFds()
+		if n != base+len(held) {
+			// a leak persists; a descriptor that is gone a moment later (the runtime's or another
+			// goroutine's) is not one. What was seen is kept as a reach probe.
+			listing := strings.Join(selfFdTargets(), " ")
+			for i := 0; i < 10 && n != base+len(held); i++ {
+				time.Sleep(20 * time.Millisecond)
+				n = countFds()
+			}
+			if n == base+len(held) {
+				c.Probe("transient_descriptor_seen")
+				c.Logf("transient descriptor after %s: %s", what, listing)
+				if dbg := os.Getenv("VERIF_DEBUG_FILE"); dbg != "" {
+					if f, err := os.OpenFile(dbg, os.O_APPEND|os.O_CREATE|os.O_WRONLY, 0644); err == nil {
+						fmt.Fprintf(f, "transient after %s (expected %d): %s\n  log: %s\n", what, base+len(held), listing, strings.Join(c.Log, " | "))
+						f.Close()
+					}
+				}
+			}
+		}
+		if n != base+len(held) {
 			return vcore.Violate(prop, "descriptor_leak", what, "after %s the process has %d descriptors, the model expects %d (baseline %d + %d received)", what, n, base+len(held), base, len(held))
 		}
 		return nil
@@ -101,7 +123,7 @@ func c19Run(c *vcore.Ctx) *vcore.Violation {
 		vcore.Heartbeat()
 		from := src.Int(2, "end")
 		e, peer := ends[from], ends[1-from]
-		action := src.Pick("action", "send", "send", "send", "recv", "recv", "recv_small", "send_badfd", "close")
+		action := src.Pick("action", "send", "send", "send", "recv", "recv", "recv_small", "send_badfd", "close", "blocked_recv")
 		if action == "close" && op < nops-2 {
 			action = "send"
 		}
@@ -191,26 +213,29 @@ func c19Run(c *vcore.Ctx) *vcore.Violation {
 				bufSize = 1 + src.Int(want.size-1, "bufsize")
 				c.Fault("receive_buffer_too_small")
 			}
-			e.raw.SetDeadline(time.Now().Add(5 * time.Second))
 			var got unixsocket.Msg
 			var err error
 			var n int
 			var data []byte
 			var gtag string
 			var gsize int
-			if gob {
-				if want.kind == "reply" {
-					gtag, gsize, got, err = e.framed.VRecvReply()
-				} else {
-					var gk string
-					gk, gtag, gsize, got, err = e.framed.VRecvCmd()
-					if err == nil && gk != want.kind {
-						return vcore.Violate(prop, "wrong_message", "gob/kind", "received a %s command, the head of the queue is %s", gk, want.kind)
+			var gk string
+			err = c19Timed(e.raw, func() error {
+				var err error
+				if gob {
+					if want.kind == "reply" {
+						gtag, gsize, got, err = e.framed.VRecvReply()
+					} else {
+						gk, gtag, gsize, got, err = e.framed.VRecvCmd()
 					}
+				} else {
+					data = make([]byte, bufSize)
+					n, got, err = e.raw.RecvMsg(data)
 				}
-			} else {
-				data = make([]byte, bufSize)
-				n, got, err = e.raw.RecvMsg(data)
+				return err
+			})
+			if gob && want.kind != "reply" && err == nil && gk != want.kind {
+				return vcore.Violate(prop, "wrong_message", "gob/kind", "received a %s command, the head of the queue is %s", gk, want.kind)
 			}
 			c.Logf("%s recv buf=%d -> n=%d fds=%d cred=%v err=%v (head: size=%d fds=%d)", e.name, bufSize, n, len(got.Fds), got.Cred != nil, err, want.size, len(want.ids))
 			c.Event(fmt.Sprintf("recv:%s:%v", sizeClass(want.size), err == nil))
@@ -278,6 +303,79 @@ func c19Run(c *vcore.Ctx) *vcore.Violation {
 				syscall.Close(fd)
 			}
 			held = held[:len(held)-len(got.Fds)]
+		case "blocked_recv":
+			// a receiver already blocked in RecvMsg when the event arrives: a message from the peer, the
+			// peer closing, or its own end being closed by another goroutine
+			if e.closed || peer.closed || len(e.in) != 0 || gob {
+				continue
+			}
+			how := src.Pick("release", "message", "peer_close", "own_close")
+			if how != "message" && op < nops-2 {
+				how = "message"
+			}
+			type rr struct {
+				n   int
+				m   unixsocket.Msg
+				err error
+				buf []byte
+			}
+			ch := make(chan rr, 1)
+			e.raw.SetDeadline(time.Now().Add(10 * time.Second))
+			go func() {
+				buf := make([]byte, 1<<16)
+				n, m, err := e.raw.RecvMsg(buf)
+				ch <- rr{n, m, err, buf}
+			}()
+			time.Sleep(2 * time.Millisecond)
+			c.Fault("receiver_blocked_before_event")
+			c.Event("blocked_recv:" + how)
+			size := 1 + src.Int(2000, "bsize")
+			payload := bytes.Repeat([]byte{'B'}, size)
+			var fdmsg unixsocket.Msg
+			var wantIno uint64
+			switch how {
+			case "message":
+				kf := src.Int(len(files), "bfile")
+				fdmsg.Fds, wantIno = []int{int(files[kf].Fd())}, ids[kf]
+				peer.raw.SetDeadline(time.Now().Add(5 * time.Second))
+				if err := peer.raw.SendMsg(payload, fdmsg); err != nil {
+					return vcore.Violate(prop, "send_failed", "raw/blocked_receiver", "send to a blocked receiver failed: %v", err)
+				}
+			case "peer_close":
+				peer.raw.Close()
+				peer.closed, peer.in, e.in = true, nil, nil
+				base--
+			case "own_close":
+				e.raw.Close()
+				e.closed, e.in, peer.in = true, nil, nil
+				base--
+			}
+			var got rr
+			select {
+			case got = <-ch:
+			case <-time.After(8 * time.Second):
+				return vcore.Violate(prop, "receiver_stuck", "raw/"+how, "a receiver blocked in RecvMsg was not released by %s", how)
+			}
+			c.Logf("%s blocked recv released by %s -> n=%d fds=%d err=%v", e.name, how, got.n, len(got.m.Fds), got.err)
+			if how == "message" {
+				if got.err != nil || got.n != size || !bytes.Equal(got.buf[:got.n], payload) || len(got.m.Fds) != 1 {
+					for _, fd := range got.m.Fds {
+						syscall.Close(fd)
+					}
+					return vcore.Violate(prop, "wrong_message", "raw/blocked_receiver", "blocked receiver got n=%d fds=%d err=%v for a %d byte message with one descriptor", got.n, len(got.m.Fds), got.err, size)
+				}
+				var st syscall.Stat_t
+				syscall.Fstat(got.m.Fds[0], &st)
+				syscall.Close(got.m.Fds[0])
+				if st.Ino != wantIno {
+					return vcore.Violate(prop, "wrong_descriptors", "raw/blocked_receiver", "descriptor is inode %d, sender attached %d", st.Ino, wantIno)
+				}
+			} else if got.err == nil {
+				return vcore.Violate(prop, "wrong_message", "raw/"+how, "a receiver released by %s got a message (n=%d)", how, got.n)
+			}
+			if v := expectFds("blocked receive"); v != nil {
+				return v
+			}
 		case "close":
 			if e.closed {
 				continue
@@ -301,27 +399,28 @@ func c19Run(c *vcore.Ctx) *vcore.Violation {
 		for !e.closed && len(e.in) > 0 {
 			want := e.in[0]
 			e.in = e.in[1:]
-			e.raw.SetDeadline(time.Now().Add(5 * time.Second))
 			var got unixsocket.Msg
-			var err error
-			if gob {
-				var gtag string
-				var gsize int
-				if want.kind == "reply" {
-					gtag, gsize, got, err = e.framed.VRecvReply()
+			var gtag string
+			var gsize, n int
+			err := c19Timed(e.raw, func() error {
+				var err error
+				if gob {
+					if want.kind == "reply" {
+						gtag, gsize, got, err = e.framed.VRecvReply()
+					} else {
+						_, gtag, gsize, got, err = e.framed.VRecvCmd()
+					}
 				} else {
-					_, gtag, gsize, got, err = e.framed.VRecvCmd()
+					data := make([]byte, 1<<20)
+					n, got, err = e.raw.RecvMsg(data)
 				}
-				if err == nil && (gtag != want.tag || gsize != want.size) {
-					return vcore.Violate(prop, "wrong_message", "gob/drain", "draining: received tag %q size %d, expected tag %q size %d", gtag, gsize, want.tag, want.size)
-				}
-			} else {
-				data := make([]byte, 1<<20)
-				var n int
-				n, got, err = e.raw.RecvMsg(data)
-				if err == nil && n != want.size {
-					return vcore.Violate(prop, "wrong_message", "raw/drain", "draining: received %d bytes, expected %d", n, want.size)
-				}
+				return err
+			})
+			if gob && err == nil && (gtag != want.tag || gsize != want.size) {
+				return vcore.Violate(prop, "wrong_message", "gob/drain", "draining: received tag %q size %d, expected tag %q size %d", gtag, gsize, want.tag, want.size)
+			}
+			if !gob && err == nil && n != want.size {
+				return vcore.Violate(prop, "wrong_message", "raw/drain", "draining: received %d bytes, expected %d", n, want.size)
 			}
 			for _, fd := range got.Fds {
 				syscall.Close(fd)
@@ -329,12 +428,42 @@ func c19Run(c *vcore.Ctx) *vcore.Violation {
 			if err != nil && want.size > 0 && want.size < 30000 {
 				return vcore.Violate(prop, "receive_failed", layer+"/drain", "draining a queued %d byte message failed: %v", want.size, err)
 			}
+			if err != nil && (os.IsTimeout(err) || strings.Contains(err.Error(), "i/o timeout")) {
+				return vcore.Violate(prop, "message_lost", layer, "draining: the model has a queued message of %d bytes but nothing arrived", want.size)
+			}
 		}
 	}
 	if v := expectFds("drain"); v != nil {
 		return v
 	}
 	return nil
+}
+
+// c19Timed runs one receive of a message the model says is queued. Deadlines only exist so that a
+// lost message ends the run instead of hanging it; they are real time, and on an overloaded machine
+// this process can be descheduled past a short deadline before the read is even attempted (Go then
+// fails the read although data is queued). A timed-out receive consumed nothing, so it is repeated
+// once with a long deadline: only a message that is really not there fails twice.
+func c19Timed(s *unixsocket.Socket, recv func() error) error {
+	s.SetDeadline(time.Now().Add(5 * time.Second))
+	err := recv()
+	if err != nil && (errors.Is(err, os.ErrDeadlineExceeded) || strings.Contains(err.Error(), "i/o timeout")) {
+		vcore.Heartbeat()
+		s.SetDeadline(time.Now().Add(40 * time.Second))
+		err = recv()
+	}
+	s.SetDeadline(time.Time{})
+	return err
+}
+
+func selfFdTargets() []string {
+	var o []string
+	ents, _ := os.ReadDir("/proc/self/fd")
+	for _, e := range ents {
+		t, _ := os.Readlink("/proc/self/fd/" + e.Name())
+		o = append(o, e.Name()+"="+t)
+	}
+	return o
 }
 
 func sizeClass(n int) string {
